@@ -263,6 +263,101 @@ theorem only_ok_exposes_profile (r : Result) (p : Profile) (d : Device) :
   refine ⟨?_, fun e => ⟨rfl, rfl⟩⟩
   cases r <;> simp [deviceDataOf]
 
+/-! ## Through `ratelimitmw.Middleware.Wrap` (what the later stages see) -/
+
+/-- **served_exposes_only_recognised.**  The later stages (filtering, billing, query log) see a
+profile and device only if `Find` recognised exactly them, the remote port is not 0, neither the
+global access manager nor that profile's own access list blocks the request. -/
+theorem served_exposes_only_recognised (g : Gate) (r : Result) (p : Profile) (d : Device)
+    (h : exposed (wrap g r) = some (p, d)) :
+    r = .ok p d ∧ g.port0 = false ∧ g.blockedIP = false ∧ g.blockedHost = false ∧
+      g.profBlocks p.id = false := by
+  unfold wrap at h
+  cases h0 : g.port0 <;> simp only [h0] at h
+  · cases h1 : (g.blockedIP || g.blockedHost || profileBlocked g r) <;> simp only [h1] at h
+    · cases r <;> simp [exposed, deviceDataOf] at h
+      obtain ⟨rfl, rfl⟩ := h
+      simp [profileBlocked, deviceDataOf] at h1
+      exact ⟨rfl, rfl, h1.1.1, h1.1.2, h1.2⟩
+    · simp [exposed] at h
+  · simp [exposed] at h
+
+/-- **serve_recognised_presents_own_identifier.**  End to end — finder construction, conversion of
+the socket addresses (`Unmap`), `Find`, `Wrap`: whatever the later stages see attributed was
+recognised by `Find` on a profile-enabled server group from the unmapped addresses, so (over a
+well-formed database) the request literally presents that device's identifier through a channel of
+its transport, the profile is live and the authentication policy is met. -/
+theorem serve_recognised_presents_own_identifier (g : Gate) (en : Bool) (s : Srv) (db : DB) (rq : Req)
+    (p : Profile) (d : Device) (hwf : db.WF) (h : exposed (serve g en s db rq) = some (p, d)) :
+    en = true ∧ Presents s (normAddrs rq) p d ∧ d.id ∈ p.devices ∧ p.deleted = false ∧
+      AuthMet s (normAddrs rq) d := by
+  obtain ⟨hr, -⟩ := served_exposes_only_recognised g _ p d h
+  obtain ⟨hen, hf⟩ := findIn_ok en s db _ p d hr
+  have h1 := recognised_only_own_id s db _ p d hf
+  exact ⟨hen, recognised_presents_own_identifier s db _ p d hwf hf,
+    (recognised_device_is_own s db _ p d hwf hf).1, h1.2.1, h1.2.2⟩
+
+/-- **blocked_never_answered.**  A request from a spoofed port or blocked by the global access
+manager is dropped whatever the device finder said — also when it reported an error (no SERVFAIL
+for blocked clients). -/
+theorem blocked_never_answered (g : Gate) (r : Result)
+    (h : g.port0 = true ∨ g.blockedIP = true ∨ g.blockedHost = true) : wrap g r = .dropped := by
+  unfold wrap
+  cases h0 : g.port0
+  · rcases h with h | h | h
+    · simp [h0] at h
+    · simp [h]
+    · simp [h]
+  · simp
+
+/-- **unrecognised_ignores_profile_access.**  The access list of a profile is consulted only for a
+request recognised as that profile's: for every other device result (not found, authentication
+failure, …) the outcome does not depend on any profile's access list — a client that failed
+authentication can neither be blocked by nor probe the profile's settings. -/
+theorem unrecognised_ignores_profile_access (g g' : Gate) (r : Result) (hr : deviceDataOf r = none)
+    (h0 : g.port0 = g'.port0) (h1 : g.blockedIP = g'.blockedIP) (h2 : g.blockedHost = g'.blockedHost) :
+    wrap g r = wrap g' r := by
+  simp [wrap, profileBlocked, hr, h0, h1, h2]
+
+/-- **bad_password_served_as_anonymous.**  `bad_password_is_anonymous` through `Wrap`: unless the
+client is spoofed or globally blocked, the request with the wrong / empty / missing password is
+handed to the next stages with an authentication-failure result and no profile, whatever the access
+list of the named device's profile says. -/
+theorem bad_password_served_as_anonymous (g : Gate) (s : Srv) (db : DB) (rq : Req) (p : Profile) (d : Device)
+    (u : Str) (pw : Option Str) (hdoh : s.proto = .doh) (hui : rq.userinfo = some (u, pw))
+    (hvalid : validDeviceID u = true) (hdb : db.byDeviceID u = .found p d) (hlive : p.deleted = false)
+    (hen : d.auth.enabled = true) (hbad : ∀ pass, pw = some pass → d.auth.check pass = false)
+    (h0 : g.port0 = false) (h1 : g.blockedIP = false) (h2 : g.blockedHost = false) :
+    (∃ e, serve g true s db rq = .next (.authFail e)) ∧ exposed (serve g true s db rq) = none := by
+  obtain ⟨⟨e, he⟩, -, -⟩ :=
+    bad_password_is_anonymous s db (normAddrs rq) p d u pw hdoh (by simpa [normAddrs] using hui) hvalid hdb hlive hen hbad
+  have : serve g true s db rq = .next (.authFail e) := by
+    simp [serve, findIn, he, wrap, h0, h1, h2, profileBlocked, deviceDataOf]
+  exact ⟨⟨e, this⟩, by simp [this, exposed, deviceDataOf]⟩
+
+/-- **dnscrypt_served_as_anonymous.**  DNSCrypt through `Wrap`: never a profile, and — unless
+spoofed or globally blocked — always served. -/
+theorem dnscrypt_served_as_anonymous (g : Gate) (en : Bool) (s : Srv) (db : DB) (rq : Req)
+    (h : s.proto = .dnscrypt ∨ s.proto = .invalid) :
+    exposed (serve g en s db rq) = none ∧
+      (g.port0 = false → g.blockedIP = false → g.blockedHost = false → serve g en s db rq = .next .none) := by
+  have hf : findIn en s db (normAddrs rq) = .none := by
+    cases en
+    · simp [findIn]
+    · simpa [findIn] using (dnscrypt_anonymous s db (normAddrs rq) h).1
+  refine ⟨?_, fun h0 h1 h2 => by simp [serve, hf, wrap, h0, h1, h2, profileBlocked, deviceDataOf]⟩
+  simp only [serve, hf, wrap]
+  cases g.port0 <;> cases g.blockedIP <;> cases g.blockedHost <;> simp [exposed, deviceDataOf, profileBlocked]
+
+/-- **unmap_only_mapped.**  The address conversion changes IPv4-mapped IPv6 addresses only; in
+particular a zoned address (`fe80::1%eth0`, what a socket reports for a link-local client) reaches
+the database look-up with its zone, where it equals no stored linked or dedicated address: such a
+client is *not* recognised by address (the safe direction for this property). -/
+theorem unmap_only_mapped (ip : IP) (h : "::ffff:".toList.isPrefixOf ip.toList = false) : unmapIP ip = ip := by
+  unfold unmapIP
+  simp only [h, Bool.false_and]
+  rfl
+
 /-! ## Non-vacuity: concrete instances satisfying the hypotheses -/
 
 section Examples
@@ -359,6 +454,22 @@ example : isAuthFail (find (exSrv .doh) (exDB true false)
       (addRequestInfo ⟨some [], "Basic ZGV2MTpwdw==".toList, "/dns-query".toList⟩ (exReq none "" ""))) = true := by
   decide
 
+/-- Address conversion: mapped addresses are unmapped, zoned and ordinary ones are kept. -/
+example : unmapIP "::ffff:198.51.100.1" = "198.51.100.1" ∧ unmapIP "fe80::1%eth0" = "fe80::1%eth0" ∧
+    unmapIP "2001:db8::2" = "2001:db8::2" ∧ unmapIP "::ffff:0:1" = "::ffff:0:1" := by decide
+
+/-- Through `Wrap`: the plain-DNS request recognised by its linked address is also recognised when
+the socket reports the client as an IPv4-mapped address, not when it reports a zone; a profile access
+list that blocks `p1` drops it; the gate hypotheses of `bad_password_served_as_anonymous` are
+satisfiable. -/
+def gateOpen : Gate := { port0 := false, blockedIP := false, blockedHost := false, profBlocks := fun _ => false }
+
+example : (exposed (serve gateOpen true (exSrv .dns) (exDB false false) { exReq none "" "" with edns := none, rip := "::ffff:198.51.100.1" })).isSome = true ∧
+    (exposed (serve gateOpen true (exSrv .dns) (exDB false false) { exReq none "" "" with edns := none, rip := "198.51.100.1%eth0" })).isSome = false ∧
+    (exposed (serve { gateOpen with profBlocks := fun i => i = ['p', '1'] } true (exSrv .dns) (exDB false false) (exReq none "" ""))).isSome = false ∧
+    (exposed (serve gateOpen true (exSrv .doh) (exDB true false) (exReq (some (['d', 'e', 'v', '1'], some ['x'])) "/dns-query" ""))).isSome = false := by
+  decide
+
 /-- DNSCrypt: the same request that is recognised on plain DNS is anonymous. -/
 example : isOK (find (exSrv .dnscrypt) (exDB false false) (exReq none "" "")) = false := by decide
 
@@ -418,6 +529,13 @@ end Agd.Device
 #print axioms Agd.Device.http_userinfo_has_password
 #print axioms Agd.Device.http_bad_password_is_anonymous
 #print axioms Agd.Device.http_doh_only_needs_basic_auth
+#print axioms Agd.Device.served_exposes_only_recognised
+#print axioms Agd.Device.serve_recognised_presents_own_identifier
+#print axioms Agd.Device.blocked_never_answered
+#print axioms Agd.Device.unrecognised_ignores_profile_access
+#print axioms Agd.Device.bad_password_served_as_anonymous
+#print axioms Agd.Device.dnscrypt_served_as_anonymous
+#print axioms Agd.Device.unmap_only_mapped
 #print axioms Agd.Device.sni_orig_counterexample
 #print axioms Agd.Device.sni_label_is_first_label
 #print axioms Agd.Tie.TrC03.translation_complete
@@ -461,3 +579,15 @@ end Agd.Device
 #print axioms Agd.Tie.TrC03.dedicated_never_linked
 #print axioms Agd.Tie.TrC03.newDeviceResult_nil_iff
 #print axioms Agd.Tie.TrC03.isProfileDBNotFound_eq
+#print axioms Agd.Tie.TrC03.isBlockedByAccess_eq
+#print axioms Agd.Tie.TrC03.isBlockedByAccess_profile_only
+#print axioms Agd.Tie.TrC03.wrap_trace
+#print axioms Agd.Tie.TrC03.wrap_tr
+#print axioms Agd.Tie.TrC03.wrap_put_once
+#print axioms Agd.Tie.TrC03.deviceData_only_ok
+#print axioms Agd.Tie.TrC03.newDeviceFinder_spec
+#print axioms Agd.Tie.TrC03.pbAuth_toInternal_spec
+#print axioms Agd.Tie.TrC03.fcAuth_toInternal_spec
+#print axioms Agd.Tie.TrC03.converted_dohOnly_implies_enabled
+#print axioms Agd.Tie.TrC03.dohPassword_nonnil
+#print axioms Agd.Tie.TrC03.fcAuth_roundtrip
